@@ -119,7 +119,33 @@ fn gen(seed: u64, idx: u64, t: Tier) -> J {
 	// A third of the streams use every separator the format allows (YAML comments,
 	// '...' terminators, a bare first document; JSON blanks and CRLF).
 	let varied = r.chance(1, 3);
-	let stream = gen::build_stream(&docs, f, &mut r, varied);
+	let mut stream = gen::build_stream(&docs, f, &mut r, varied);
+	// One YAML stream in five arrives in another encoding of the same text: UTF-8 behind a
+	// byte order mark, or UTF-16/32 (either byte order, with or without the mark).
+	let mut enc = "utf8";
+	if f == Fmt::Yaml && r.chance(1, 4) {
+		let choice = *r.pick(&["utf8bom", "utf8bom", "utf16be", "utf16le", "utf32be", "utf32le"]);
+		if stream.bytes.starts_with(b"---\n") && r.chance(2, 3) {
+			// make the first document a bare one (a mark cannot be followed by '---')
+			stream.bytes.drain(..4);
+			stream.docs = stream.docs.iter().map(|&(a, e)| (a.saturating_sub(4), e - 4)).collect();
+		}
+		if let Ok(text) = std::str::from_utf8(&stream.bytes) {
+			let bom = choice == "utf8bom" || r.chance(1, 2);
+			// (xt refuses a mark that is followed by '---', and an unmarked UTF-16/32 text
+			// is recognised only when it starts with an ASCII character)
+			let ok = if choice == "utf8bom" { !text.starts_with("---") } else { bom && !text.starts_with("---") || (!bom && text.chars().next().is_some_and(|c| c.is_ascii())) };
+			// (behind a mark libyaml takes the first line for indented by one column; the
+			// marked stream as a whole has to translate, not only its documents alone)
+			let ok = ok && (choice != "utf8bom" || exec::t0(&[b"\xef\xbb\xbf".as_slice(), text.as_bytes()].concat(), Some(f), to).0.is_ok());
+			if ok {
+				let (b, map) = encode_with_map(text, choice, bom);
+				stream.docs = stream.docs.iter().map(|&(a, e)| (map[a], map[e])).collect();
+				stream.bytes = b;
+				enc = choice;
+			}
+		}
+	}
 	let mut from = if r.chance(1, 2) { Some(f) } else { None };
 	if from.is_none() {
 		let head_end = stream.docs.get(3).map_or(stream.bytes.len(), |d| d.1);
@@ -192,8 +218,63 @@ fn gen(seed: u64, idx: u64, t: Tier) -> J {
 	}
 	set_param(&mut sc, "policy", json!(policy));
 	set_param(&mut sc, "fmt", json!(f.name()));
+	set_param(&mut sc, "enc", json!(enc));
 	set_param(&mut sc, "docs", json!(stream.docs.iter().map(|(a, b)| json!([a, b])).collect::<Vec<_>>()));
 	sc.to_json()
+}
+
+/// Encodes UTF-8 text; `map[i]` is the encoded offset of UTF-8 byte offset `i` (0..=len).
+pub fn encode_with_map(text: &str, enc: &str, bom: bool) -> (Vec<u8>, Vec<usize>) {
+	let mut out: Vec<u8> = vec![];
+	let put = |out: &mut Vec<u8>, c: char| match enc {
+		"utf16be" | "utf16le" => {
+			let mut b = [0u16; 2];
+			for u in c.encode_utf16(&mut b) {
+				out.extend_from_slice(&if enc == "utf16be" { u.to_be_bytes() } else { u.to_le_bytes() });
+			}
+		}
+		"utf32be" => out.extend_from_slice(&(c as u32).to_be_bytes()),
+		"utf32le" => out.extend_from_slice(&(c as u32).to_le_bytes()),
+		_ => {
+			let mut b = [0u8; 4];
+			out.extend_from_slice(c.encode_utf8(&mut b).as_bytes());
+		}
+	};
+	if bom {
+		put(&mut out, '\u{feff}');
+	}
+	let mut map = vec![0usize; text.len() + 1];
+	for (i, c) in text.char_indices() {
+		for k in 0..c.len_utf8() {
+			map[i + k] = out.len();
+		}
+		put(&mut out, c);
+	}
+	map[text.len()] = out.len();
+	(out, map)
+}
+
+/// Decodes what `encode_with_map` produced (a leading mark is dropped).
+pub fn decode_to_utf8(b: &[u8], enc: &str) -> Option<String> {
+	let s: String = match enc {
+		"utf16be" | "utf16le" => {
+			let units: Vec<u16> = b.chunks(2).map(|c| if c.len() < 2 { 0xfffd } else if enc == "utf16be" { u16::from_be_bytes([c[0], c[1]]) } else { u16::from_le_bytes([c[0], c[1]]) }).collect();
+			String::from_utf16(&units).ok()?
+		}
+		"utf32be" | "utf32le" => {
+			let mut t = String::new();
+			for c in b.chunks(4) {
+				if c.len() < 4 {
+					return None;
+				}
+				let u = if enc == "utf32be" { u32::from_be_bytes([c[0], c[1], c[2], c[3]]) } else { u32::from_le_bytes([c[0], c[1], c[2], c[3]]) };
+				t.push(char::from_u32(u)?);
+			}
+			t
+		}
+		_ => String::from_utf8(b.to_vec()).ok()?,
+	};
+	Some(s.strip_prefix('\u{feff}').map_or(s.clone(), str::to_owned))
 }
 
 fn ranges(sc: &Scenario) -> Vec<(usize, usize)> {
@@ -206,6 +287,15 @@ fn eval(case: &J) -> Eval {
 	let docs = ranges(&sc);
 	let f = sc.param_s("fmt").and_then(Fmt::parse).unwrap_or(Fmt::Json);
 	let n = docs.len();
+	let enc = sc.param_s("enc").unwrap_or("utf8").to_owned();
+	ev.count(
+		match enc.as_str() {
+			"utf8" => "enc.utf8",
+			"utf8bom" => "enc.utf8_bom",
+			_ => "enc.utf16_32",
+		},
+		1,
+	);
 	let si = sc.calls.len() - 1; // the stream is the last call of the history
 	let bytes = &sc.calls[si].bytes;
 	let tag = format!("{}->{}", from_name(sc.calls[si].from), sc.to.name());
@@ -223,7 +313,15 @@ fn eval(case: &J) -> Eval {
 		let len = match cache.get(&h) {
 			Some(l) => *l,
 			None => {
-				let (v, out) = exec::t0(&bytes[s..e], Some(f), sc.to);
+				let alone: std::borrow::Cow<[u8]> = if enc == "utf8" || enc == "utf8bom" {
+					std::borrow::Cow::Borrowed(&bytes[s..e])
+				} else {
+					match decode_to_utf8(&bytes[s..e], &enc) {
+						Some(t) => std::borrow::Cow::Owned(t.into_bytes()),
+						None => return ev,
+					}
+				};
+				let (v, out) = exec::t0(&alone, Some(f), sc.to);
 				ev.execs += 1;
 				if !v.is_ok() {
 					return ev;
